@@ -53,7 +53,15 @@ impl Prop for C07 {
             r.label("nonsuccess");
         }
         let (e, buf) = encode_in(&case.env, &case.call, BIG, |i| 0xB0 | (i as u8 & 0x0F));
-        let Enc::Ok(len) = e else { return r };
+        let len = match e {
+            Enc::Ok(n) => n,
+            other => {
+                // the quantifier covers every completion code, enum combination, EID, UUID,
+                // list of 0-30 types and field of 0-7 bytes: each must be encodable
+                r.fail(format!("C07:{}:valid_arguments_not_encoded", kind), format!("the response encoder returned {:?} for arguments inside the property's quantifier: {:?}", other, case.call));
+                return r;
+            }
+        };
         if len < 13 || len > buf.len() {
             r.fail(format!("C07:{}:len", kind), format!("a control response of {} bytes cannot hold its headers and completion code", len));
             return r;
